@@ -45,6 +45,17 @@ def run(prop, tier, seed):
         if vlib.compare(rcase["expect"], ro):
             # the compiler itself resolves / evaluates differently from lexical scoping: not an editor matter (C21)
             scope_differs.append({"id": c["id"], "files": rcase["files"], "want_out": c["out"], "got_out": ro.get("out"), "status": ro.get("status")})
+            # ... but the property also says which declaration go-to-definition has to return: "the same name, and the
+            # innermost binding in scope".  Where the editor follows the compiler to another declaration, that is reported.
+            if lo.get("lsp") == "ok" and len(lo.get("answers") or []) == len(c["queries"]):
+                for q, a in zip(c["queries"], lo["answers"]):
+                    if "def" in q and a.get("def") != q["def"]:
+                        one = dict(lcase, id="%s.def.%d" % (c["id"], q["off"]), offsets=[q["off"]])
+                        rep.finding("C35|definition-not-innermost-binding-in-scope|%s" % q["dk"], one, {"off": q["off"], "def": a.get("def")},
+                                    [{"field": "def", "want": q["def"], "got": a.get("def"), "query": q}],
+                                    "go-to-definition at offset %d (`%s`) returns a declaration that is not the innermost binding in "
+                                    "scope (the compiled program behaves accordingly)" % (q["off"], q["name"]))
+                        break
             continue
         if lo.get("lsp") != "ok" or len(lo.get("answers") or []) != len(c["queries"]):
             rep.finding("C35|analysis-unavailable|%s" % lo.get("lsp"), lcase, lo, [{"field": "lsp", "want": "ok", "got": lo.get("lsp")}],
